@@ -369,6 +369,10 @@ func (bridge *ExprBridge) evaluateStringConcatenation(expression string, data ma
 		} else {
 			// 处理字段引用
 			if value, exists := data[part]; exists {
+				// NULL operand: the whole expression is NULL (not the other operand)
+				if value == nil {
+					return nil, nil
+				}
 				strValue := cast.ToString(value)
 				result.WriteString(strValue)
 			} else {
